@@ -192,6 +192,32 @@ def history_write_once(ctx, n, nsteps):
                      {"kind": "mktree", "tree": t1}, {"kind": "snap"}, {"kind": "walk"},
                      {"kind": "backup", "plan": None, "tree": t1, "snap_at": 9}, {"kind": "arch"}]
             cases.append({"id": f"b{k}{kind[-1]}", "steps": steps, "marks": marks})
+    # an interrupted version (hunks, no tail) whose blocks nothing else refers to; later a completed backup of a changed
+    # source, then gc and a delete of another version: the interrupted version's blocks are referenced and must stay
+    for kk in (26, 33, 41):
+        def uf(d, m):
+            return {"k": "f", "data": d.hex(), "mode": 0o644, "mtime": 10**18 + m}
+        u0 = {"k": "d", "mode": 0o755, "mtime": 10**18, "c": {f"u{i}": uf(b"first-%d" % i, i) for i in range(4)}}
+        u1 = {"k": "d", "mode": 0o755, "mtime": 10**18, "c": {f"u{i}": uf(b"second-%d!" % i, 10 + i) for i in range(4)}}
+        u2 = {"k": "d", "mode": 0o755, "mtime": 10**18, "c": {f"u{i}": uf(b"third--%d!!" % i, 20 + i) for i in range(4)}}
+        o = {"meph": 1, "mbs": 64, "sfc": 0}
+        steps = [{"op": "init"}, {"op": "mktree", "path": "src", "tree": u0}, {"op": "snap", "path": "src"}, {"op": "walk"},
+                 {"op": "backup", "opts": o}, {"op": "arch"},
+                 {"op": "mktree", "path": "src", "tree": u1}, {"op": "snap", "path": "src"}, {"op": "walk"},
+                 {"op": "backup", "opts": o, "plan": {"crash": kk}}, {"op": "arch"},
+                 {"op": "mktree", "path": "src", "tree": u2}, {"op": "snap", "path": "src"}, {"op": "walk"},
+                 {"op": "backup", "opts": o}, {"op": "arch"},
+                 {"op": "delete", "bands": [], "dry": False}, {"op": "arch"},
+                 {"op": "delete", "bands": [0], "dry": False}, {"op": "arch"}]
+        marks = [{"kind": "init"}, {"kind": "mktree", "tree": u0}, {"kind": "snap"}, {"kind": "walk"},
+                 {"kind": "backup", "plan": None, "tree": u0, "snap_at": 2}, {"kind": "arch"},
+                 {"kind": "mktree", "tree": u1}, {"kind": "snap"}, {"kind": "walk"},
+                 {"kind": "backup", "plan": {"crash": kk}, "tree": u1, "snap_at": 7}, {"kind": "arch"},
+                 {"kind": "mktree", "tree": u2}, {"kind": "snap"}, {"kind": "walk"},
+                 {"kind": "backup", "plan": None, "tree": u2, "snap_at": 12}, {"kind": "arch"},
+                 {"kind": "delete", "ids": [], "dry": False}, {"kind": "arch"},
+                 {"kind": "delete", "ids": [0], "dry": False}, {"kind": "arch"}]
+        cases.append({"id": f"i{kk}", "steps": steps, "marks": marks})
     # a delete killed while it holds the lock leaves GC_LOCK behind; a later delete / gc without --break-lock is refused and
     # must leave everything, that lock included, where it is
     for k in (6, 8, 11):
